@@ -684,3 +684,21 @@ Section ModelRoutes2.
     apply I. simpl. exact Hin.
   Qed.
 End ModelRoutes2.
+
+(** ** the other repaired defects as refutations on the pinned code *)
+(** defect 26: $x: Int given the JSON value true is coerced to 1 *)
+Lemma refines_refuted_before_fix_bool :
+  exists j t g, jval_ok j = true /\
+    coerce_var_value pinned E0 dt0 j t true = Ok g /\
+    ref_coerce E0 dt0 TJson (abs_json j) t true = None.
+Proof. exists (JBool true), (StNamed n_Int), (GInt 1). repeat split; vm_compute; reflexivity. Qed.
+
+(** the non-null wrapper re-enabled item-to-list coercion: [1] at [[Int]!] became [[1]] *)
+Lemma refines_refuted_before_fix_nn_flag :
+  exists j t g, jval_ok j = true /\
+    coerce_var_value pinned E0 dt0 j t true = Ok g /\
+    ref_coerce E0 dt0 TJson (abs_json j) t true = None.
+Proof.
+  exists (JList [JNum (F64 1 0)]), (StList (StNonNull (StList (StNamed n_Int)))), (GList [GList [GInt 1]]).
+  repeat split; vm_compute; reflexivity.
+Qed.
